@@ -152,6 +152,129 @@ def rule_r3(rep, program, prop=PROP, rule="R3"):
     return r
 
 
+def _simulate_wrapper(w: ast.FunctionDef, scenario):
+    """Abstract runs of a cache wrapper for one state of its primary cache entry.  Values: 'VAL0' (valid cached
+    value), None (invalidation marker), 'ABSENT', 'RES' (result of the wrapped method, possibly wrapped), or an
+    opaque text.  Tests that do not concern the entry are explored both ways.  -> {(returned, entry, n_calls)}"""
+    prim = None
+    for n in ast.walk(w):
+        if isinstance(n, ast.Assign) and len(n.targets) == 1 and isinstance(n.targets[0], ast.Name) and n.targets[0].id in ("key", "prim_key"):
+            prim = n.targets[0].id if prim is None or n.targets[0].id == "prim_key" else prim
+    if prim is None:
+        raise AnalysisError("cache wrapper: primary key local not found")
+    outcomes = set()
+    budget = [400]
+
+    def is_entry(e):
+        return isinstance(e, ast.Subscript) and norm(e.value).endswith("._cache") and (norm(e.slice) == prim or norm(e.slice) in ("keys[0]",))
+
+    def ev(e, st, env):
+        if isinstance(e, ast.NamedExpr):
+            v = ev(e.value, st, env)
+            env[e.target.id] = v
+            return v
+        if is_entry(e):
+            if st["entry"] == "ABSENT":
+                raise AnalysisError("cache wrapper reads the entry of an absent key")
+            return st["entry"]
+        if isinstance(e, ast.Call) and isinstance(e.func, ast.Name) and e.func.id == "method":
+            st["calls"] += 1
+            return "RES"
+        if isinstance(e, ast.Call) and isinstance(e.func, ast.Attribute) and e.func.attr == "get" and norm(e.func.value).endswith("._cache") and e.args and norm(e.args[0]) in (prim, "keys[0]"):
+            # dict.get: the entry, or the default (None) for an absent key
+            if st["entry"] == "ABSENT":
+                return ev(e.args[1], st, env) if len(e.args) > 1 else None
+            return st["entry"]
+        if isinstance(e, ast.Name):
+            return env.get(e.id, f"<{e.id}>")
+        if isinstance(e, ast.Constant) and e.value is None:
+            return None
+        if isinstance(e, (ast.Tuple, ast.List)) and any(ev(x, st, env) == "RES" for x in e.elts):
+            return "RES"
+        if isinstance(e, ast.Subscript) and ev(e.value, st, env) == "RES":
+            return "RES"
+        if isinstance(e, ast.IfExp):
+            t = truth(e.test, st, env)
+            if t is None:
+                a, b = ev(e.body, st, env), ev(e.orelse, st, env)
+                return a if a == b else f"<{norm(e)[:30]}>"
+            return ev(e.body if t else e.orelse, st, env)
+        return f"<{norm(e)[:40]}>"
+
+    def truth(t, st, env):
+        if isinstance(t, ast.UnaryOp) and isinstance(t.op, ast.Not):
+            v = truth(t.operand, st, env)
+            return None if v is None else not v
+        if isinstance(t, ast.BoolOp):
+            vals = []
+            for x in t.values:
+                v = truth(x, st, env)
+                if isinstance(t.op, ast.Or) and v is True:
+                    return True
+                if isinstance(t.op, ast.And) and v is False:
+                    return False
+                vals.append(v)
+            return None if any(v is None for v in vals) else (any(vals) if isinstance(t.op, ast.Or) else all(vals))
+        if isinstance(t, ast.Compare) and len(t.ops) == 1:
+            op, left, right = t.ops[0], t.left, t.comparators[0]
+            if isinstance(op, (ast.In, ast.NotIn)) and norm(right).endswith("._cache") and norm(left) in (prim, "keys[0]"):
+                present = st["entry"] != "ABSENT"
+                return present if isinstance(op, ast.In) else not present
+            if isinstance(op, (ast.Is, ast.IsNot, ast.Eq, ast.NotEq)) and isinstance(right, ast.Constant) and right.value is None:
+                v = ev(left, st, env)
+                if v is None or v in ("VAL0", "RES"):
+                    return (v is None) if isinstance(op, (ast.Is, ast.Eq)) else (v is not None)
+        return None
+
+    def run(stmts, st, env):
+        budget[0] -= 1
+        if budget[0] < 0:
+            raise AnalysisError("cache wrapper: too many paths")
+        for k_, s_ in enumerate(stmts):
+            rest = stmts[k_ + 1 :]
+            if isinstance(s_, ast.Return):
+                outcomes.add((ev(s_.value, st, env) if s_.value is not None else None, st["entry"], st["calls"]))
+                return
+            if isinstance(s_, ast.If):
+                tv = truth(s_.test, st, env)
+                for arm in ([s_.body if tv else s_.orelse] if tv is not None else [s_.body, s_.orelse]):
+                    run(list(arm) + list(rest), dict(st), dict(env))
+                return
+            if isinstance(s_, (ast.For, ast.While)):
+                # the body may run zero times or once for a generic element
+                body_once = [x for x in s_.body]
+                tgt = s_.target if isinstance(s_, ast.For) else None
+                res_iter = isinstance(s_, ast.For) and any(isinstance(n, ast.Name) and env.get(n.id) == "RES" for n in ast.walk(s_.iter))
+                # a store `cache[k] = v` with (k, v) running over zip(keys, <result>) stores the result under the primary key
+                stores_prim = res_iter and any(isinstance(x, ast.Assign) and any(isinstance(t, ast.Subscript) and norm(t.value).endswith("._cache") for t in x.targets) for x in ast.walk(s_) if isinstance(x, ast.Assign))
+                st2, env2 = dict(st), dict(env)
+                if stores_prim:
+                    st2["entry"] = "RES"
+                run(list(rest), st2, env2)
+                return
+            if isinstance(s_, ast.Assign):
+                v = ev(s_.value, st, env)
+                for t in s_.targets:
+                    if is_entry(t):
+                        st["entry"] = v
+                    elif isinstance(t, ast.Name):
+                        env[t.id] = v
+                continue
+            if isinstance(s_, ast.AugAssign):
+                continue
+            if isinstance(s_, ast.Expr):
+                ev(s_.value, st, env) if isinstance(s_.value, ast.Call) and isinstance(s_.value.func, ast.Name) and s_.value.func.id == "method" else None
+                continue
+            if isinstance(s_, (ast.Pass,)):
+                continue
+            raise AnalysisError(f"cache wrapper: statement outside the grammar: {norm(s_)[:50]}")
+        outcomes.add((None, st["entry"], st["calls"]))
+
+    body = [x for x in w.body if not (isinstance(x, ast.Expr) and isinstance(x.value, ast.Constant))]
+    run(body, {"entry": scenario, "calls": 0}, {})
+    return outcomes
+
+
 def rule_r4(rep, program):
     r = rep.rule("R4", "copy() forwards cache / shares tables; assignment clears only dependants; decorators call the method only on a miss and store aux outputs", floor=6)
     f = program.method("ChainState", "copy")
@@ -195,18 +318,24 @@ def rule_r4(rep, program):
         mcalls = [n for n in ast.walk(w) if isinstance(n, ast.Call) and isinstance(n.func, ast.Name) and n.func.id == "method"]
         if not mcalls:
             raise AnalysisError(f"{dname}: call of wrapped method not found")
-        for mc in mcalls:
-            guarded = False
-            cur = mc
-            while cur in pm:
-                par = pm[cur]
-                if isinstance(par, ast.If) and cur in par.body and "_cache" in norm(par.test):
-                    guarded = True
-                    break
-                cur = par
-            r.inst({"site": f"{dname}.wrapper", "call": norm(mc), "guarded_by_miss_test": guarded})
-            if not guarded:
-                r.violate(PROP, f"{dname}.wrapper:unguarded-call", "the wrapped method is evaluated outside the cache-miss test, i.e. on every call", node=mc, file=d.file)
+        # the wrapper is interpreted for the three states of its primary cache entry (valid value / absent /
+        # invalidated to None): a hit must not evaluate the wrapped method and must return the cached value, a miss
+        # must evaluate it exactly once, store the result and return it
+        for scenario in ("VAL0", "ABSENT", None):
+            outs = _simulate_wrapper(w, scenario)
+            label = {"VAL0": "hit", "ABSENT": "miss (key absent)", None: "miss (entry invalidated)"}[scenario]
+            r.inst({"site": f"{dname}.wrapper", "entry state": label, "outcomes (returned, entry, calls)": sorted({str(o) for o in outs})})
+            for ret, entry, calls in outs:
+                if scenario == "VAL0":
+                    if calls:
+                        r.violate(PROP, f"{dname}.wrapper:unguarded-call", f"the wrapped method is evaluated although a valid value is cached ({calls} evaluation(s) on a hit): every call re-evaluates the model", node=mcalls[0], file=d.file)
+                    elif ret != "VAL0":
+                        r.violate(PROP, f"{dname}.wrapper:hit-returns:{ret}", f"on a cache hit the wrapper returns `{ret}` instead of the cached value", node=w, file=d.file)
+                else:
+                    if calls != 1:
+                        r.violate(PROP, f"{dname}.wrapper:miss-calls:{calls}", f"on a cache miss ({label}) the wrapped method is evaluated {calls} times", node=mcalls[0], file=d.file)
+                    elif entry != "RES":
+                        r.violate(PROP, f"{dname}.wrapper:miss-not-stored", f"on a cache miss ({label}) the wrapper returns with the cache entry `{entry}`: the evaluated value is not stored, so every later call evaluates the wrapped method again", node=w, file=d.file)
         # must-pass-through: every path from the evaluation of the wrapped method to a return stores the
         # result in the state's cache (for every state, read-only ones included: a value that is
         # returned without being stored is evaluated again on the next call)
